@@ -375,6 +375,24 @@ def d8_run(carve):
                     except Exception as e:  # noqa: BLE001
                         bad.append(f"{lab}: raises {type(e).__name__}: {str(e)[:100]}")
                         continue
+                    # expressions over references taken from the LEFT operand before the union are typed by the union's columns
+                    try:
+                        nm0 = names[0]
+                        derived = u >> pdt.mutate(x__=l[nm0], y__=l[nm0].fill_null(l[nm0]), w__=pdt.when(l[nm0].is_null()).then(l[nm0]).otherwise(l[nm0]), z__=pdt.coalesce(l[nm0], l[nm0]))
+                        ddf = derived >> pdt.export(pdt.Polars())
+                        for cn in ("x__", "y__", "w__", "z__"):
+                            st = T.without_const(derived[cn].dtype())
+                            if be == "polars":
+                                msg = check_type(st, ddf.schema[cn])
+                            else:
+                                fs, fg = TU.family(st), TU.family(Dtype.from_polars(ddf.schema[cn]))
+                                msg = None if fs == fg or (fs == "bool" and fg == "int") else f"static family {fs} ({st}), exported {ddf.schema[cn]}"
+                            if msg:
+                                bad.append(f"{lab} >> mutate({cn[0]}=<expression over l.{nm0}, a reference taken before the union>): {msg}")
+                    except (pdt.errors.DataTypeError, pdt.errors.FunctionTypeError):
+                        pass
+                    except Exception as e:  # noqa: BLE001
+                        bad.append(f"{lab} >> mutate(<expression over l.{names[0]}>): raises {type(e).__name__}: {str(e)[:100]}")
                     for nm in names:
                         want = T.lca_type([left[nm].dtype(), right[nm].dtype()])
                         static = T.without_const(u[nm].dtype())
